@@ -54,7 +54,9 @@ def gen_teardown(rng, tier, seed):
             'stall': rng.choice([None, None, None, [0, 0.05], [1, 0.05], [0, 0.3], [1, 0.3]]),
             # where the boundaries are counted: messages on the air, or (transport loss only) HCI packets read by the host that loses
             # its transport - the loss then happens right after packet k, before any task woken by that packet has run
-            'boundary': rng.choice(['air', 'air', 'hci'])}
+            'boundary': rng.choice(['air', 'air', 'hci']),
+            # the application had waited for the transport source's `terminated` under a timeout that expired before the loss
+            'terminated_given_up': rng.random() < 0.4}
 
 
 class Ctx:
@@ -69,6 +71,7 @@ def _build(sim, case):
     proc = case['proc']
     classic = proc in CLASSIC_PROCS
     cx = Ctx()
+    cx.case = case
     cx.extra_tasks = []
     nb = 3 if case.get('bystander') else 2
     world = World(sim, nb, classic=classic)
@@ -414,6 +417,24 @@ def _lose_link(sim, ctrl, handles):
             sim.call(ctrl.on_classic_disconnected, addr, 0x08)
 
 
+def _lose_transport(sim, cx, nd, inside_loop):
+    """Report the loss the way a transport does: through its source object. In some cases the application had awaited the source's
+    `terminated` future under a timeout that expired (which cancels that future) before the loss happens."""
+    from bumble.transport.common import BaseSource
+
+    def go():
+        src = BaseSource()
+        src.set_packet_sink(nd.host)
+        if cx.case.get('terminated_given_up'):
+            src.terminated.cancel()
+            sim.probe('source_terminated_future_cancelled_before_the_loss')
+        src.on_transport_lost()
+    if inside_loop:
+        go()
+    else:
+        sim.call(go)
+
+
 def _transport_loss_now(sim, cx, side):
     """Transport loss from INSIDE the loop (called in the delivery of an HCI packet): same effect as _fire's transport loss."""
     world = cx.world
@@ -422,7 +443,7 @@ def _transport_loss_now(sim, cx, side):
     nd.c2h.closed = True
     lost_addrs = {str(nd.controller.public_address), str(nd.controller.random_address)}
     try:
-        nd.host.on_transport_lost()
+        _lose_transport(sim, cx, nd, True)
     finally:
         for k, other in enumerate(world.nodes):
             if k == side:
@@ -483,7 +504,7 @@ def _fire(sim, cx, kind):
         nd = world[side]
         nd.h2c.closed = True
         nd.c2h.closed = True
-        sim.call(nd.host.on_transport_lost)
+        _lose_transport(sim, cx, nd, False)
         unreachable.add(side)
         # the peers' links to the node that lost its host eventually time out
         lost_addrs = {str(nd.controller.public_address), str(nd.controller.random_address)}
